@@ -45,7 +45,7 @@ def gen_schema(rng, options=None):
 	options = options or {}
 	lines = [
 		'using Height = uint64', 'using Key = binary_fixed(32)', 'using Count = uint16', 'using ByteSize = uint32', '',
-		'inline struct CountHeader', '\thcount = Count', '\thsize = ByteSize', '\thplain = uint8', '',
+
 		'enum Kind : uint16', '\tNONE = 0', '\tSOME = 1', '\tMORE = 2', '\tLAST = 513', '',
 		'@is_aligned', 'struct ElemA', '\tkey = uint64', '',
 		'struct ElemU', '\tkey = uint32', '\tweight = Height', '',
@@ -150,8 +150,13 @@ def gen_schema(rng, options=None):
 			# the size member: builtin integer, alias or enum typed (the validator only asks that the member exists), declared here or
 			# arriving through an inlined header
 			if rng.random() < 0.25:
-				if not any('inline CountHeader' in line for line in body):
-					body.insert(0, '\tinline CountHeader')
+				# a header of its own per holder: extend_models attaches the extensions to the member OBJECTS, which an unnamed inline
+				# shares between all structs that inline the header - a header shared by two holders would have its size member bound
+				# to whichever holder was processed last
+				header_name = f'CountHeader{chr(65 + index)}x'
+				if not any(f'inline {header_name}' in line for line in body):
+					body.insert(0, f'\tinline {header_name}')
+					blocks.append(('factory', header_name, '\n'.join([f'inline struct {header_name}', '\thcount = Count', '\thsize = ByteSize', '\thplain = uint8'])))
 				count = rng.choice(['hcount', 'hsize', 'hplain'])
 			else:
 				body.append(f'\t{count} = {rng.choice(SIZE_MEMBER_TYPES)}')
